@@ -489,6 +489,9 @@ func runC13(c *Ctx) {
 	}
 	// (5) payload provenance
 	checkReactivePayload(r, p)
+	// ... and that diff is exact: what ds.Set's own Apply/AddAll/DeleteAll report is what changed (the
+	// Set rules of C11 are obligations here, the reactive set forwards their result to every subscriber)
+	checkSetProtocol(r, p)
 	// (6) LockExecution contract
 	checkLockExecutionContract(r, p)
 }
